@@ -27,3 +27,7 @@ def fill(chk, NA):
         'complete enumeration of a bounded path language (loop lists <=3/4 deep x segment id x qualifier x element x component, every string <=6 over a small alphabet as last component, ill-formed forms that must raise) against a regex-free recursive-descent parser, every node path of every loadable map, and an explicit-state BFS over set/get histories of length <=4/5 on Segments against a list-of-lists model with full read-back after every transition',
         'trusted: the reference parser and segment model in mc/c17.py; combinations the statement leaves open (element 00, component 0, trailing slash, ...) are executed and counted, not judged',
         'exhaustive product enumeration plus explicit-state breadth-first search over the real Segment/X12Path code', 'E1+E2', 'DESIGN.md 3/C17')
+    chk('C03', 'fault_enumeration',
+        'for every element, composite, segment and loop node of every selectable map (quick: one per definition signature) a conformant two-set carrier receives exactly one fault of every applicable kind of a 15-kind catalogue; the error tree must carry the predicted (segment position, element position, code, value), the AK3/AK4 or IK3/IK4 lines must itemise it, nothing else may be reported for non-structural kinds and the sibling set must stay accepted',
+        'trusted: the grammar-based carrier generator and the applicability rules of the catalogue; faults on qualifier elements / syntax-note members are judged weakly (verdict false, error at that segment); out-of-place segments are decided at walker level by the C02 search',
+        'exhaustive single-fault enumeration over all map nodes on the real validator', 'E3', 'DESIGN.md 3/C03')
